@@ -344,6 +344,10 @@ func lockName(mu *value) string {
 	return "unnamed"
 }
 
+// heldUnderGate: locks that were acquired while multiDataStoreLock was held.
+// The gate orders two nested locks only if it was taken before the first.
+var heldUnderGate = map[*value]bool{}
+
 func noteLockOrder(mu *value) {
 	if !fieldLogOn {
 		return
@@ -354,6 +358,7 @@ func noteLockOrder(mu *value) {
 			gate = true
 		}
 	}
+	heldUnderGate[mu] = gate
 	to := lockName(mu)
 	for h := range mon.held {
 		if h == mu {
@@ -364,7 +369,7 @@ func noteLockOrder(mu *value) {
 		if from == to && !other {
 			continue
 		}
-		e := lockEdge{from, to, other, gate, fieldLabel}
+		e := lockEdge{from, to, other, gate && heldUnderGate[h], fieldLabel}
 		lockOrderLog[fmt.Sprintf("%s|%s|%v|%v|%s", from, to, other, gate, fieldLabel)] = e
 	}
 }
